@@ -300,10 +300,16 @@ func runScenario(bin, workdir string, sc *Scenario) (*RunRec, error) {
 		args[i] = strings.ReplaceAll(a, "{ROOT}", tree)
 	}
 	var cmdline []string
+	if sc.RunAs != 0 {
+		// (setpriv rather than exec's Credential: merely referencing syscall.Credential made every exec of
+		// this harness spend more than a second of system time in this sandbox)
+		id := fmt.Sprint(sc.RunAs)
+		cmdline = []string{"setpriv", "--reuid=" + id, "--regid=" + id, "--clear-groups"}
+	}
 	traceFile := filepath.Join(root, "strace.out")
 	if sc.Strace || sc.Inject != "" {
-		cmdline = []string{"strace", "-f", "-y", "-s", "0", "-o", traceFile,
-			"-e", "trace=openat,open,creat,write,pwrite64,writev,close,rename,renameat,renameat2,unlink,unlinkat,rmdir,mkdir,mkdirat,chmod,fchmod,fchmodat,truncate,ftruncate,link,linkat,symlink,symlinkat,fsync,utimensat"}
+		cmdline = append(cmdline, "strace", "-f", "-y", "-s", "0", "-o", traceFile,
+			"-e", "trace=openat,open,creat,write,pwrite64,writev,close,rename,renameat,renameat2,unlink,unlinkat,rmdir,mkdir,mkdirat,chmod,fchmod,fchmodat,truncate,ftruncate,link,linkat,symlink,symlinkat,fsync,utimensat")
 		if sc.Inject != "" {
 			cmdline = append(cmdline, "-e", "inject="+sc.Inject)
 		}
@@ -329,7 +335,6 @@ func runScenario(bin, workdir string, sc *Scenario) (*RunRec, error) {
 	cmd.Stdout, cmd.Stderr = &so, &se
 	cmd.Env = os.Environ()
 	if sc.RunAs != 0 {
-		cmd.SysProcAttr = &syscall.SysProcAttr{Credential: &syscall.Credential{Uid: sc.RunAs, Gid: sc.RunAs}}
 		cmd.Env = append(cmd.Env, "HOME=/nonexistent")
 	}
 	if !sc.NoHooks {
